@@ -267,8 +267,38 @@ def _symbolic_dict_comp(ex, st, e, s1, seq, i, cond, n0, n_pc0, nd0):
     return [Out("val", ty.MapV(ty.Id, vt, dom, arrs, keys), st)]
 
 
+FLT_LEN = z3.Function("flt_len", z3.ArraySort(z3.IntSort(), z3.BoolSort()), z3.IntSort(), z3.IntSort())
+FLT_IDX = z3.Function("flt_idx", z3.ArraySort(z3.IntSort(), z3.BoolSort()), z3.IntSort(), z3.IntSort(), z3.IntSort())
+FLT_POS = z3.Function("flt_pos", z3.ArraySort(z3.IntSort(), z3.BoolSort()), z3.IntSort(), z3.IntSort(), z3.IntSort())
+
+
+def filter_maps(i, n, cond):
+    """The order-preserving selection of the indices 0 <= i < n that satisfy cond(i), as three functions of the condition (a boolean array)
+    and n: its length, position in the result -> source index, source index -> position in the result.  The functions are canonical (the
+    same condition yields the same terms), so a specification can name the selection a piece of code computes."""
+    condarr = z3.Lambda([i], z3.simplify(cond))
+    m = FLT_LEN(condarr, n)
+    idx = lambda j: FLT_IDX(condarr, n, j)
+    pos = lambda k: FLT_POS(condarr, n, k)
+    return condarr, m, idx, pos
+
+
+def filter_axioms(i, n, cond, src_arrs=()):
+    condarr, m, idx, pos = filter_maps(i, n, cond)
+    j, k = z3.Int(ty.fresh_name("fj")), z3.Int(ty.fresh_name("fk"))
+    sub = lambda f, x: z3.substitute(f, (i, x))
+    return [
+        z3.And(m >= 0, m <= z3.If(n >= 0, n, 0)),
+        ty.FA([j], z3.Implies(z3.And(j >= 0, j < m), z3.And(idx(j) >= 0, idx(j) < n, sub(cond, idx(j)), pos(idx(j)) == j)), patterns=[idx(j)]),
+        ty.FA([j, k], z3.Implies(z3.And(j >= 0, j < k, k < m), idx(j) < idx(k)), patterns=[z3.MultiPattern(idx(j), idx(k))]),
+        ty.FA([k], z3.Implies(z3.And(k >= 0, k < n, sub(cond, k)), z3.And(pos(k) >= 0, pos(k) < m, idx(pos(k)) == k)),
+              patterns=[pos(k)] + [z3.Select(a, k) for a in src_arrs if not (z3.is_quantifier(a) and a.is_lambda())]),
+    ]
+
+
 def filtered(ex, st, i, n, cond, t, comps, src_arrs=()):
-    """Order-preserving subsequence {body(i) | 0<=i<n, cond(i)} with explicit index maps."""
+    """Order-preserving subsequence {body(i) | 0<=i<n, cond(i)} with explicit index maps: fresh function symbols (good E-matching triggers)
+    that are declared equal to the canonical selection functions of the condition (so that specifications can name the same selection)."""
     m = z3.Int(ty.fresh_name("flen"))
     idx = z3.Function(ty.fresh_name("fidx"), z3.IntSort(), z3.IntSort())     # position in result -> source index
     pos = z3.Function(ty.fresh_name("fpos"), z3.IntSort(), z3.IntSort())     # source index -> position in result
@@ -282,10 +312,14 @@ def filtered(ex, st, i, n, cond, t, comps, src_arrs=()):
     st.assume(ty.FA([k], z3.Implies(z3.And(k >= 0, k < n, sub(cond, k)),
                                         z3.And(pos(k) >= 0, pos(k) < m, idx(pos(k)) == k)),
                         patterns=[pos(k)] + [z3.Select(a, k) for a in src_arrs if not (z3.is_quantifier(a) and a.is_lambda())]))
+    if getattr(ex, "cur_canonical_filters", False):
+        # opt-in (contract extra canonical_filters=True): only where a specification has to name the selection
+        condarr, cm, cidx, cpos = filter_maps(i, n, cond)
+        st.assume(m == cm)
+        st.assume(ty.FA([j], idx(j) == cidx(j), patterns=[idx(j)]))
+        st.assume(ty.FA([k], pos(k) == cpos(k), patterns=[pos(k)]))
     arrs = [z3.Lambda([j], sub(c, idx(j))) for c in comps]
-    r = ty.SeqV(t, arrs, m)
-    st.ghost.setdefault("__filters__", PyList()).items.append((r, idx, pos))
-    return r
+    return ty.SeqV(t, arrs, m)
 
 
 def set_of(ex, st, v, node):
@@ -326,7 +360,24 @@ def sorted_set(ex, st, sset, node, reverse=False):
 
 
 def sum_seq(ex, st, v, start, node):
-    raise _U("sum() of a symbolic sequence", node)
+    """sum(seq) / sum(generator) over a symbolic sequence of numbers: the Sum operator (a constant summand c gives c x length)"""
+    from .nplib import SUM
+    if isinstance(v, GenV):
+        v = v.seq
+    if not (isinstance(v, ty.SeqV) and v.elem in (ty.Real, ty.Int)):
+        raise _U(f"sum() of {v!r}", node)
+    i = z3.Int(ty.fresh_name("si"))
+    body = z3.simplify(ty.sel(v.arrs[0], i))
+    s0 = ty.to_z3num(_num(ex, st, start, node))
+    if z3.is_int_value(body) or z3.is_rational_value(body):
+        n = z3.If(v.len >= 0, v.len, 0)
+        tot = body * n if z3.is_int(body) else body * z3.ToReal(n)
+    else:
+        a = v.arrs[0] if v.elem is ty.Real else z3.Lambda([i], z3.ToReal(ty.sel(v.arrs[0], i)))
+        tot = SUM(a, v.len)
+    if z3.is_int(tot) != z3.is_int(s0):
+        tot, s0 = ty.to_real(tot), ty.to_real(s0)
+    return _out(z3.simplify(tot + s0), st)
 
 
 def minmax_seq(ex, st, v, node, is_min):
